@@ -5,68 +5,69 @@ From PCB Require Import lib.Result lib.PyInt model.Flood proofs.Flood_base.
 Import ListNotations.
 Open Scope Z_scope.
 
-Record adj_ok (v : bounds) (m : bitmap) (fill border xs xe y d xl xr : Z) (news : list seedt) : Prop := {
+Record adj_ok (v : bounds) (m : bitmap) (p : pat) (border xs xe y d xl xr : Z) (news : list seedt) : Prop := {
   ao_each : forall e, In e news -> exists a b d', e = (a, b, y + d', d') /\ (d' = 1 \/ d' = -1) /\
               by0 v <= y + d' <= by1 v /\ xl <= a /\ a <= b /\ b <= xr /\
               (forall i, a <= i <= b -> pix m i (y + d') <> border) /\
-              (exists i, a <= i <= b /\ pix m i (y + d') <> fill);
+              has_same m p (y + d') a (b - a + 1) = false;
   ao_all : forall i d', xl <= i <= xr -> (d' = 1 \/ d' = -1) -> by0 v <= y + d' <= by1 v ->
-              closed m fill border i (y + d') \/ covered news i (y + d') \/
+              closed m p border i (y + d') \/ covered news i (y + d') \/
               (d <> 0 /\ d' = - d /\ xs <= i <= xe);
   ao_count : Z.of_nat (length news) <= 2 * (xr - xl + 1)
 }.
 
-Lemma adj_ok_closed v m fill border xs xe y d xl xr news :
-  adj_ok v m fill border xs xe y d xl xr news ->
+Lemma adj_ok_closed v m p border xs xe y d xl xr news : stops_on_tile p ->
+  adj_ok v m p border xs xe y d xl xr news ->
   (forall i d', xl <= i <= xr -> (d' = 1 \/ d' = -1) -> by0 v <= y + d' <= by1 v ->
-                closed m fill border i (y + d')) ->
+                closed m p border i (y + d')) ->
   news = [].
 Proof.
-  intros [Heach _ _] Hcl. destruct news as [|e t]; [reflexivity|exfalso].
+  intros Hst [Heach _ _] Hcl. destruct news as [|e t]; [reflexivity|exfalso].
   destruct (Heach e (or_introl eq_refl))
-    as (a & b & d' & _ & Hd' & Hy & Ha1 & Ha2 & Ha3 & Hnb & (i & Hi & Hnf)).
-  destruct (Hcl i d' ltac:(lia) Hd' Hy) as [Hc|Hc]; [apply (Hnb i Hi Hc) | apply (Hnf Hc)].
+    as (a & b & d' & _ & Hd' & Hy & Ha1 & Ha2 & Ha3 & Hnb & Hnf).
+  destruct (not_same_cell m p (y + d') a b Hst Ha2 Hnf) as (i & Hi & Hne).
+  destruct (Hcl i d' ltac:(lia) Hd' Hy) as [Hc|Hc]; [apply (Hnb i Hi Hc) | apply (Hne Hc)].
 Qed.
 
 (* transfer of one _check_scanline result into the adj_ok vocabulary *)
-Lemma pushed_each v m fill border y d' a0 b0 xl xr news :
-  pushed_ok m fill border (y + d') d' a0 b0 news ->
+Lemma pushed_each v m p border y d' a0 b0 xl xr news :
+  pushed_ok m p border (y + d') d' a0 b0 news ->
   (d' = 1 \/ d' = -1) -> by0 v <= y + d' <= by1 v -> xl <= a0 -> b0 <= xr ->
   forall e, In e news -> exists a b d'', e = (a, b, y + d'', d'') /\ (d'' = 1 \/ d'' = -1) /\
               by0 v <= y + d'' <= by1 v /\ xl <= a /\ a <= b /\ b <= xr /\
               (forall i, a <= i <= b -> pix m i (y + d'') <> border) /\
-              (exists i, a <= i <= b /\ pix m i (y + d'') <> fill).
+              has_same m p (y + d'') a (b - a + 1) = false.
 Proof.
   intros [Heach _ _] Hd Hy Hl Hr e He.
   destruct (Heach e He) as (a & b & -> & H1 & H2 & H3 & H4 & H5).
   exists a, b, d'. repeat split; auto; lia.
 Qed.
 
-Lemma push_adjacent_spec v m fill border xs xe y d xl xr rest :
+Lemma push_adjacent_spec v m p border xs xe y d xl xr rest :
   (d = 0 \/ d = 1 \/ d = -1) -> xl <= xs -> xs <= xe -> xe <= xr -> by0 v <= y <= by1 v ->
-  exists news, push_adjacent v m fill border xs xe y d xl xr rest = Some (news ++ rest) /\
-               adj_ok v m fill border xs xe y d xl xr news.
+  exists news, push_adjacent v m p border xs xe y d xl xr rest = Some (news ++ rest) /\
+               adj_ok v m p border xs xe y d xl xr news.
 Proof.
   intros Hd Hl Hm Hr Hyv. unfold push_adjacent.
   destruct (d =? 0) eqn:Ed.
   - (* first interval: both neighbouring rows over the whole extended interval *)
     apply Z.eqb_eq in Ed. subst d.
-    assert (H1 : exists n1, (if y + 1 <=? by1 v then check_scanline rest m fill border xl xr (y + 1) 1
+    assert (H1 : exists n1, (if y + 1 <=? by1 v then check_scanline rest m p border xl xr (y + 1) 1
                              else Some rest) = Some (n1 ++ rest) /\
-                            (y + 1 <= by1 v -> pushed_ok m fill border (y + 1) 1 xl xr n1) /\
+                            (y + 1 <= by1 v -> pushed_ok m p border (y + 1) 1 xl xr n1) /\
                             (by1 v < y + 1 -> n1 = [])).
     { destruct (y + 1 <=? by1 v) eqn:E.
-      - apply Z.leb_le in E. destruct (check_scanline_spec rest m fill border xl xr (y + 1) 1) as (n1 & Hq & Hok).
+      - apply Z.leb_le in E. destruct (check_scanline_spec rest m p border xl xr (y + 1) 1) as (n1 & Hq & Hok).
         exists n1. split; [exact Hq|]. split; [auto|lia].
       - apply Z.leb_gt in E. exists []. split; [reflexivity|]. split; [lia|auto]. }
     destruct H1 as (n1 & Hq1 & Hok1 & Hnil1). rewrite Hq1. cbn [obind].
-    assert (H2 : exists n2, (if by0 v <=? y - 1 then check_scanline (n1 ++ rest) m fill border xl xr (y - 1) (-1)
+    assert (H2 : exists n2, (if by0 v <=? y - 1 then check_scanline (n1 ++ rest) m p border xl xr (y - 1) (-1)
                              else Some (n1 ++ rest)) = Some (n2 ++ n1 ++ rest) /\
-                            (by0 v <= y - 1 -> pushed_ok m fill border (y + -1) (-1) xl xr n2) /\
+                            (by0 v <= y - 1 -> pushed_ok m p border (y + -1) (-1) xl xr n2) /\
                             (y - 1 < by0 v -> n2 = [])).
     { destruct (by0 v <=? y - 1) eqn:E.
       - apply Z.leb_le in E.
-        destruct (check_scanline_spec (n1 ++ rest) m fill border xl xr (y - 1) (-1)) as (n2 & Hq & Hok).
+        destruct (check_scanline_spec (n1 ++ rest) m p border xl xr (y - 1) (-1)) as (n2 & Hq & Hok).
         exists n2. split; [exact Hq|]. split; [intros _; exact Hok|lia].
       - apply Z.leb_gt in E. exists []. split; [reflexivity|]. split; [lia|auto]. }
     destruct H2 as (n2 & Hq2 & Hok2 & Hnil2). rewrite Hq2.
@@ -74,9 +75,9 @@ Proof.
     constructor.
     + intros e He. apply in_app_or in He as [He|He].
       * destruct (Z_le_gt_dec (by0 v) (y - 1)) as [Hb|Hb]; [|rewrite Hnil2 in He by lia; destruct He].
-        apply (pushed_each v m fill border y (-1) xl xr xl xr n2); auto; try lia.
+        apply (pushed_each v m p border y (-1) xl xr xl xr n2); auto; try lia.
       * destruct (Z_le_gt_dec (y + 1) (by1 v)) as [Hb|Hb]; [|rewrite Hnil1 in He by lia; destruct He].
-        apply (pushed_each v m fill border y 1 xl xr xl xr n1); auto; try lia.
+        apply (pushed_each v m p border y 1 xl xr xl xr n1); auto; try lia.
     + intros i d' Hi Hd' Hy. destruct Hd' as [->| ->].
       * destruct (po_all _ _ _ _ _ _ _ _ (Hok1 ltac:(lia)) i Hi) as [Hc|Hc]; [now left|].
         right. left. apply covered_app. now right.
@@ -99,26 +100,26 @@ Proof.
       by (unfold gf; rewrite andb_true_iff, !Z.leb_le; lia).
     assert (Hgb : gb = true <-> by0 v <= y - d <= by1 v)
       by (unfold gb; rewrite andb_true_iff, !Z.leb_le; lia).
-    assert (H1 : exists n1, (if gf then check_scanline rest m fill border xl xr (y + d) d
+    assert (H1 : exists n1, (if gf then check_scanline rest m p border xl xr (y + d) d
                              else Some rest) = Some (n1 ++ rest) /\
-                            (gf = true -> pushed_ok m fill border (y + d) d xl xr n1) /\
+                            (gf = true -> pushed_ok m p border (y + d) d xl xr n1) /\
                             (gf = false -> n1 = [])).
     { destruct gf.
-      - destruct (check_scanline_spec rest m fill border xl xr (y + d) d) as (n1 & Hq & Hok).
+      - destruct (check_scanline_spec rest m p border xl xr (y + d) d) as (n1 & Hq & Hok).
         exists n1. split; [exact Hq|]. split; [auto|discriminate].
       - exists []. split; [reflexivity|]. split; [discriminate|auto]. }
     destruct H1 as (n1 & Hq1 & Hok1 & Hnil1). rewrite Hq1. cbn [obind].
     assert (H2 : exists n2 n3,
-               (if gb then obind (check_scanline (n1 ++ rest) m fill border xl (xs - 1) (y - d) (- d))
-                                 (fun w2 => check_scanline w2 m fill border (xe + 1) xr (y - d) (- d))
+               (if gb then obind (check_scanline (n1 ++ rest) m p border xl (xs - 1) (y - d) (- d))
+                                 (fun w2 => check_scanline w2 m p border (xe + 1) xr (y - d) (- d))
                 else Some (n1 ++ rest)) = Some (n3 ++ n2 ++ n1 ++ rest) /\
-               (gb = true -> pushed_ok m fill border (y + - d) (- d) xl (xs - 1) n2 /\
-                             pushed_ok m fill border (y + - d) (- d) (xe + 1) xr n3) /\
+               (gb = true -> pushed_ok m p border (y + - d) (- d) xl (xs - 1) n2 /\
+                             pushed_ok m p border (y + - d) (- d) (xe + 1) xr n3) /\
                (gb = false -> n2 = [] /\ n3 = [])).
     { destruct gb.
-      - destruct (check_scanline_spec (n1 ++ rest) m fill border xl (xs - 1) (y - d) (- d)) as (n2 & Hq & Hok).
+      - destruct (check_scanline_spec (n1 ++ rest) m p border xl (xs - 1) (y - d) (- d)) as (n2 & Hq & Hok).
         rewrite Hq. cbn [obind].
-        destruct (check_scanline_spec (n2 ++ n1 ++ rest) m fill border (xe + 1) xr (y - d) (- d))
+        destruct (check_scanline_spec (n2 ++ n1 ++ rest) m p border (xe + 1) xr (y - d) (- d))
           as (n3 & Hq3 & Hok3).
         exists n2, n3. split; [exact Hq3|]. split; [intros _; split; [exact Hok|exact Hok3]|discriminate].
       - exists [], []. split; [reflexivity|]. split; [discriminate|auto]. }
@@ -129,14 +130,14 @@ Proof.
     + intros e He. apply in_app_or in He as [He|He]; [|apply in_app_or in He as [He|He]].
       * destruct gb eqn:Egb; [|destruct (Hnil2 eq_refl) as [_ ->]; destruct He].
         destruct (Hok2 eq_refl) as [_ Hok3].
-        apply (pushed_each v m fill border y (- d) (xe + 1) xr xl xr n3); auto; try lia.
+        apply (pushed_each v m p border y (- d) (xe + 1) xr xl xr n3); auto; try lia.
         all: try (apply Hgb in Egb; lia).
       * destruct gb eqn:Egb; [|destruct (Hnil2 eq_refl) as [-> _]; destruct He].
         destruct (Hok2 eq_refl) as [Hok2' _].
-        apply (pushed_each v m fill border y (- d) xl (xs - 1) xl xr n2); auto; try lia.
+        apply (pushed_each v m p border y (- d) xl (xs - 1) xl xr n2); auto; try lia.
         all: try (apply Hgb in Egb; lia).
       * destruct gf eqn:Egf; [|rewrite (Hnil1 eq_refl) in He; destruct He].
-        apply (pushed_each v m fill border y d xl xr xl xr n1); auto; try lia.
+        apply (pushed_each v m p border y d xl xr xl xr n1); auto; try lia.
         all: try (apply Hgf in Egf; lia).
     + intros i d' Hi Hd' Hy.
       assert (Hcase : d' = d \/ d' = - d) by lia.
